@@ -39,7 +39,9 @@ ENTRIES["C09"] = {
              "the stated consequences (never faster than latency+serialisation, rate bound, FIFO, work conservation) and enumerates "
              "arrival schedules including coincidences with departures and synchronous re-entry; every schedule and thousands of random "
              "real-unit topologies run on the real queues between probe sinks and each recorded trace is accepted by TLC only if every "
-             "departure happens exactly at the time the spec allows."),
+             "departure happens exactly at the time the spec allows. End to end: TraceTcp / TraceUdp carry the configured routes "
+             "and accept the arrival of a SYN, SYN+ACK, segment, re-sent segment, ACK, FIN or datagram at a socket only if it was "
+             "seen at the sender's first hop at least the sum of the latencies and serialisation times of its route earlier."),
     "note": QUEUE_NOTE,
 }
 ENTRIES["C10"] = {
@@ -91,11 +93,14 @@ TCP_NOTE = ("Trusted: TLC; harness/record_tcp.cpp (scripted endpoints, probes on
             "open. Bounds: <= 3 connections, <= 120 segments per stream in quick runs.")
 ENTRIES["C05"] = {
     "level": "model_checking",
-    "technique": "TLA+ specs (TcpFlow model-checked incl. safety of prefix/EOF; Tcp service spec) ; recorded TCP traces validated by TLC (TraceTcp)",
+    "technique": "TLA+ specs (TcpFlow and the closed service model MCTcp model-checked by TLC: prefix / consecutive offsets / MSS / EOF-last invariants) ; recorded TCP traces validated by TLC (TraceTcp)",
     "text": ("Every block handed to a reader is located by the harness in the PRF streams; spec/Tcp.tla accepts it only if it is "
              "the next block of the peer's stream of the same connection, within the in-order bytes that arrived; EOF only after all "
              "of them; segments must be consecutive, retransmissions only of segments reported dropped; a reused socket object "
-             "starts a fresh stream. Exhaustive drop/delay patterns over the first four segments plus random lossy runs."),
+             "starts a fresh stream. Exhaustive drop/delay patterns over the first four segments plus random lossy runs. "
+             "MCTcp.tla (stream configuration: one connection, data, one drop, partial and superseded reads, close / cancel at "
+             "any moment; 1.3 M states) shows the invariants hold in every reachable state of the service specification itself "
+             "and that each of its actions is reachable."),
     "note": TCP_NOTE,
 }
 ENTRIES["C06"] = {
@@ -105,15 +110,20 @@ ENTRIES["C06"] = {
              "deliverable' under weak fairness without a state constraint. Code level: every recorded run ends with run() returning; "
              "TLC accepts the End event only if no read is pending with data queued, no writer is blocked with nothing in flight, no "
              "dropped segment waits unsent, everything written reached a reader that keeps reading and every connect with an accept "
-             "outstanding completed."),
+             "outstanding completed. A run already rejected for another property's reason (wrong content) is re-validated with "
+             "the Lenient projection of the specification (Trace_Tcp_progress.cfg: which bytes were delivered is not examined) so "
+             "that a stall behind a content error is still reported."),
     "note": TCP_NOTE + " Route configurations follow the quantifier; payload flows one direction at a time when a queue is finite.",
 }
 ENTRIES["C07"] = {
     "level": "model_checking",
-    "technique": "TLA+ spec (Tcp: listen/SYN queue/accept matching/endpoints) ; recorded traces validated by TLC (TraceTcp)",
+    "technique": "TLA+ spec (Tcp: listen/SYN queue/accept matching/endpoints) model-checked by TLC as a closed model (MCTcp, pairing configuration); recorded traces validated by TLC (TraceTcp)",
     "text": ("Connect succeeds only towards a listening endpoint; SYN arrival order is matched with accepts one to one for the three "
              "accept forms; refusal strictly later than the call and remote_endpoint = not_connected afterwards; the four endpoint "
-             "equations; delivered bytes must belong to the stream of the same pair."),
+             "equations; delivered bytes must belong to the stream of the same pair. MCTcp.tla closes the service specification "
+             "(two connectors, three accepts of the three forms, superseded / cancelled accepts, closed acceptor, dead target) and "
+             "TLC checks the pairing invariants in every reachable state; programs run between IPv4 and IPv6 addresses, on single- "
+             "and multi-homed client nodes, with and without NAT."),
     "note": TCP_NOTE,
 }
 ENTRIES["C13"] = {
@@ -137,7 +147,10 @@ FAULT_NOTE = ("Trusted: TLC; the scripted endpoints of harness/record_tcp.cpp / 
               "simulation::run() (commit 'verif: step hook', guard LIBSIMULATOR_VERIF) that defines the boundaries; ASan + UBSan + "
               "-D_GLIBCXX_ASSERTIONS decide memory safety, TLC decides that the surviving objects still behave as specified. "
               "Base scenarios: S2 loss-free transfer, S3 lossy transfer, S4 three accept forms + refused connect, S7 two "
-              "connections, S8 socket reuse, S5 UDP exchange. Quick tier samples boundaries, thorough visits every one.")
+              "connections (with superseded reads), S8 socket reuse, S9 lone dropped segment re-sent from the timer, S10 idle writer "
+              "with segments in flight (the moments a socket may be moved), S5 UDP exchange. Interventions: close, cancel, destroy, "
+              "move-then-destroy-source (only when nothing is outstanding), throw. Both tiers visit every boundary of every scenario "
+              "(about 11 000 runs); the thorough tier adds deeper random corpora.")
 ENTRIES["C04"] = {
     "level": "fault_enumeration",
     "technique": "TLA+ specs (Tcp/Udp/SimCore/Resolver: outstanding operation + owed aborted handlers) ; close/cancel/destroy injected at every run-loop boundary; traces validated by TLC",
@@ -146,7 +159,9 @@ ENTRIES["C04"] = {
              "inside the initiating call, and the End event requires that nothing is owed. The interventions are enumerated "
              "over every handler boundary of the base scenarios, every participating socket / acceptor and {close, cancel, "
              "destroy}; timers and resolvers are covered by the TLC-generated SimCore and Resolver corpora which place "
-             "cancel/re-arm/destroy at every point of their bounded programs."),
+             "cancel/re-arm/destroy at every point of their bounded programs (resolver destruction also at the very instant a "
+             "lookup completes). Random TCP / UDP programs add operations issued while one of the same kind is outstanding "
+             "(reads, waits, accepts, receives, writable-waits): the superseded handler must run exactly once."),
     "note": FAULT_NOTE,
 }
 ENTRIES["C12"] = {
